@@ -496,6 +496,16 @@ func (r *Run) Finish(minNontrivial int) {
 		cov["exhaustive"] = *r.exhaustive
 	}
 	for k, v := range r.notes {
+		// the schema types some coverage keys; a free-text note must not take their place
+		switch k {
+		case "exhaustive":
+			if _, ok := v.(bool); !ok {
+				k = "exhaustive_note"
+			}
+		case "evaluations", "distinct_nontrivial", "rule", "samples", "states", "transitions", "obligations", "discharged", "programs",
+			"traces_validated_against_impl", "disagreements_checked", "checker_cmd", "trusted_base", "explanation":
+			k = k + "_note"
+		}
 		cov[k] = v
 	}
 	if len(r.counters) > 0 {
